@@ -4,7 +4,7 @@
    blocks, lexCode with its literal lexers, the shebang line), modelled with
    checked indexing.  Only statements, `exact`, Print Assumptions. *)
 From Verif Require Import Bytes Facts_lexer Facts_unicode LexBase LexCodeM LexerM LexTables
-  LexBase_proofs LexCode_proofs Lexer_proofs LexTop_proofs.
+  LexBase_proofs LexTile_proofs LexCode_proofs Lexer_proofs LexTop_proofs.
 Open Scope N_scope.
 
 (* Full statement.  Building a template is the lexer followed by the parser,
@@ -57,14 +57,14 @@ Print Assumptions C04_scan_measure_partial.
    before the repair) *)
 Theorem C04_lexcode_measure_partial :
   forall (U : unitab) (src : bytes) (endt first : N) (s : cst),
-    INV src (c_l s) ->
+    INVB src (c_l s) ->
     safe (code_body U endt first s)
          (fun r => match r with
-                   | Again s' => (INV src (c_l s') /\ l_base (c_l s) < l_base (c_l s') /\ l_tidx (c_l s') <= l_tidx (c_l s))
+                   | Again s' => (INVB src (c_l s') /\ l_base (c_l s) < l_base (c_l s') /\ l_tidx (c_l s') <= l_tidx (c_l s))
                                  /\ c_ret s' = c_ret s
-                   | Stop s' => ext src (c_l s) (c_l s') /\ (c_ret s' = true -> c_ret s = true \/ closing endt (c_l s'))
+                   | Stop s' => extB src (c_l s) (c_l s') /\ (c_ret s' = true -> c_ret s = true \/ closing endt (c_l s'))
                    end)
-         (ext src (c_l s)).
+         (extB src (c_l s)).
 Proof. exact code_body_safe. Qed.
 Print Assumptions C04_lexcode_measure_partial.
 
